@@ -16,6 +16,7 @@ package antispam
 // matched (a later, stricter rule must not override it).
 
 //@ func (*Antispammer).IsSpam
+//@   option check-nil yes
 //@   ghost g_exc bool = false
 //@   ghost g_incs int = 0
 //@   ensures old(a.rules == nil && a.threshold == -1) ==> !result
@@ -47,6 +48,7 @@ package antispam
 // gets its new counter (ghost counters: loads = swaps + forgets).
 
 //@ func (*Antispammer).Maintenance
+//@   option check-nil yes
 //@   ghost gx int = 0
 //@   ghost nlock int = 0
 //@   ghost nload int = 0
@@ -72,6 +74,7 @@ package antispam
 // absent from the empty string); a present one is its bytes.
 
 //@ func (*antispamData).Get
+//@   option check-nil yes
 //@   ghost gok bool = false
 //@   ghost nlook int = 0
 //@   ensures len(args) == 2 && args[0] == "meta" && !gok ==> isnil(result)
